@@ -47,6 +47,8 @@ CAT = {
     'func-renamed-local-and-inner-fresh-name': ('func pick(n int) int {\n\treflect := n * 2\n\tout := reflect\n\t{\n\t\treflect2 := 100\n\t\tout += reflect2 + reflect\n\t}\n\tfmt2 := 1\n\tfmt := out + fmt2\n\treturn fmt\n}\n', ['pick'], 'pick(3)'),
     'method-named-like-the-injector': ('type factoryBase struct{}\n\nfunc (factoryBase) Inject() string { return "base" }\n\ntype factory struct{ factoryBase }\n\nfunc (factory) Inject() string { return "factory" }\n',
                                        ['factoryBase', 'Inject', 'factory', 'Inject'], 'factory{}.Inject() + factoryBase{}.Inject()'),
+    'func-required-parens': ('type point struct{ X, Y int }\n\ntype points []point\n\nfunc parens(p point) string {\n\ts := ""\n\tif p == (point{}) {\n\t\ts += "zero"\n\t}\n\tfor _, q := range (points{{1, 2}}) {\n\t\ts += fmt.Sprint(q.X)\n\t}\n\tswitch (point{1, 2}) == p {\n\tcase true:\n\t\ts += "eq"\n\t}\n\tch := make(chan (<-chan int), 1)\n\tf := (func())(nil)\n\tc := (chan int)(nil)\n\tr := (<-chan int)(c)\n\treturn fmt.Sprint(s, ch != nil, f == nil, r == nil, (*point)(nil) == nil, -(-3), (1+2)*3, (*(&p)).Y)\n}\n',
+                             ['point', 'points', 'parens'], 'parens(point{}) + parens(point{1, 2})'),
     'func-three-index-slice-of-imported': ('func clip() string {\n\tbacking := []string{"a", "b", "c", "d", "e", "f"}\n\ts := backing[1:3:4]\n\ts = append(s, "X")\n\ts = append(s, "Y")\n\treturn $Sstrings.Join(backing, "") + $Sstrings.Join(s, "")\n}\n', ['clip'], 'clip()'),
     'func-string-rune-literals': ('func strs() string {\n\treturn "tab\\t" + `raw\\n` + string(\'x\') + string(\'\\n\') + "\\u00e9\\x41" + fmt.Sprint(\'a\', len("日本"), "q\\"q")\n}\n', ['strs'], 'strs()'),
 }
@@ -60,9 +62,9 @@ def files(rc):
     uses_strings = '$S' in decl or '$B' in decl
     # how the SOURCE file imports strings, and the qualifier it writes
     qual = {'plain': 'strings.', 'alias-differs': 'str.', 'dot-import': '', 'local-collides': 'strings.',
-            'same-base-two-imports': 'strings.', 'generated-alias-taken': 'str.', 'dot-import-same-package-name': 'strings.'}[ctx]
+            'same-base-two-imports': 'strings.', 'generated-alias-taken': 'str.', 'dot-import-same-package-name': 'strings.', 'vendor-like-path-element': 'strings.'}[ctx]
     imp = {'plain': '\t"strings"\n', 'alias-differs': '\tstr "strings"\n', 'dot-import': '\t. "strings"\n', 'local-collides': '\t"strings"\n',
-           'same-base-two-imports': '\t"strings"\n', 'generated-alias-taken': '\tstr "strings"\n', 'dot-import-same-package-name': '\t"strings"\n'}[ctx]
+           'same-base-two-imports': '\t"strings"\n', 'generated-alias-taken': '\tstr "strings"\n', 'dot-import-same-package-name': '\t"strings"\n', 'vendor-like-path-element': '\t"strings"\n'}[ctx]
     extra_decl = ''
     extra_names = []
     extra_probe = ''
@@ -87,6 +89,12 @@ def files(rc):
         extra_decl = 'func useTwin(n int) int { return Twice(n) + TwinBase }\n'
         extra_names = ['useTwin']
         extra_probe = ', useTwin(4)'
+    elif ctx == 'vendor-like-path-element':
+        # a package under a path element that merely ends in "vendor" (not a vendor directory), named like a standard package
+        imp += '\tvstrings "%s/xvendor/strings"\n' % rc.pkgpath('a')
+        extra_decl = 'func useV(s string) string { return vstrings.ToUpper(s) + strings.ToUpper(s) }\n'
+        extra_names = ['useV']
+        extra_probe = ', useV("v")'
     elif ctx == 'generated-alias-taken':
         # the package declares an identifier named like the import: the generated file must pick another alias
         extra_decl = 'func useReflectName() int { reflect2 := 3; return reflect2 }\n'
@@ -107,6 +115,8 @@ def files(rc):
     out = {rc.dir + '/wire.go': src, rc.dir + '/lib.go': lib, rc.dir + '/drive.go': drive}
     if ctx == 'dot-import-same-package-name':
         out[rc.dir + '/b/twin.go'] = 'package %s\n\nvar TwinBase = 40\n\nfunc Twice(n int) int { return 2 * n }\n' % pkg
+    if ctx == 'vendor-like-path-element':
+        out[rc.dir + '/xvendor/strings/strings.go'] = 'package strings\n\nfunc ToUpper(s string) string { return "<" + s + ">" }\n'
     return out, base_names + names + extra_names
 
 
